@@ -11,11 +11,14 @@ package main
 //                    aggregate sets with where-clauses, permuted input, DefaultLimit forcing
 //                    0..k spills, declared sort asc/desc with chosen batch boundaries,
 //                    partial decomposition) vs the naive evaluator
-//   corr     (T2)    real summarize vs the Lean model of the Aggregator (table keyed by exact
-//                    key, spill merge by comparison, sorted-input early release, partials)
+//   corr     (T2)    real summarize of a row of eight aggregates over mixed-type values vs the
+//                    Lean model of the Aggregator (table keyed by exact key, spill merge by
+//                    comparison, sorted-input mode with spills, partials): final rows and the
+//                    partial rows of every partials-out stage
 //   join     (T2+S)  real join (inner/left/right/anti; key multiplicities 0/1/many; null,
-//                    missing, cross-type keys; unsorted / declared asc / desc sides) vs the
-//                    Lean merge-join model and vs a nested loop
+//                    missing, cross-type keys; fork legs unsorted / sorted asc / desc, or
+//                    join.New over two readers with independently declared directions) vs the
+//                    Lean join plan model (joinFull) and vs a nested loop
 
 import (
 	"encoding/hex"
@@ -1133,10 +1136,76 @@ type corrCase struct {
 	Limit2 int      `json:"limit2,omitempty"`
 }
 
+// mgroup is one group as the model (or the real code, re-rendered) reports it: the row of
+// count(), sum(v), min(v), max(v), avg(v), union(id), union(v), dcount(s).
 type mgroup struct {
-	tok string
-	sig string // count|sum|ids
-	ids []int
+	tok  string
+	st   string   // the model's `(st …)` rendering (re-fed to the next stage)
+	cols []string // canonical columns c, s, mn, mx, a (final form), u, dc
+	avgP string   // avg in partial form "sum8/count"
+	ids  []int
+}
+
+func (g mgroup) sig(partial bool) string {
+	cols := append([]string(nil), g.cols...)
+	if partial {
+		cols[4] = g.avgP
+		cols[6] = "-" // dcount's partial is a sketch: only its type is checked
+	}
+	return strings.Join(cols, " ") + " " + fmt.Sprint(g.ids)
+}
+
+// sx is a minimal s-expression reader for the driver's answers.
+type sx struct {
+	atom string
+	list []sx
+	isL  bool
+}
+
+func parseSx(s string) ([]sx, error) {
+	var stack [][]sx
+	cur := []sx{}
+	i := 0
+	for i < len(s) {
+		switch ch := s[i]; {
+		case ch == '(':
+			stack = append(stack, cur)
+			cur = []sx{}
+			i++
+		case ch == ')':
+			if len(stack) == 0 {
+				return nil, fmt.Errorf("unbalanced )")
+			}
+			l := sx{list: cur, isL: true}
+			cur = append(stack[len(stack)-1], l)
+			stack = stack[:len(stack)-1]
+			i++
+		case ch == ' ':
+			i++
+		default:
+			j := i
+			for j < len(s) && s[j] != ' ' && s[j] != '(' && s[j] != ')' {
+				j++
+			}
+			cur = append(cur, sx{atom: s[i:j]})
+			i = j
+		}
+	}
+	if len(stack) != 0 {
+		return nil, fmt.Errorf("unbalanced (")
+	}
+	return cur, nil
+}
+
+func (e sx) render() string {
+	if !e.isL {
+		return e.atom
+	}
+	var p []string
+	for _, x := range e.list {
+		p = append(p, x.render())
+	}
+	return "(" + strings.Join(p, " ") + ")"
 }
 
 func parseModelGroups(ans string) (int, []mgroup, error) {
@@ -1144,33 +1213,93 @@ func parseModelGroups(ans string) (int, []mgroup, error) {
 	if _, err := fmt.Sscanf(ans, "spills=%d", &spills); err != nil {
 		return 0, nil, fmt.Errorf("model answered %q", ans)
 	}
-	i := strings.Index(ans, " ")
 	rest := ""
-	if i >= 0 {
-		rest = strings.TrimSpace(ans[i:])
+	if i := strings.Index(ans, " "); i >= 0 {
+		rest = ans[i:]
+	}
+	es, err := parseSx(rest)
+	if err != nil {
+		return 0, nil, fmt.Errorf("model answered %q: %v", ans, err)
 	}
 	var out []mgroup
-	for rest != "" {
-		// (tok count sum (ids))
-		j := strings.Index(rest, "))")
-		if !strings.HasPrefix(rest, "(") || j < 0 {
-			return 0, nil, fmt.Errorf("model group syntax %q", rest)
+	for _, e := range es {
+		if !e.isL || len(e.list) != 2 || !e.list[1].isL || len(e.list[1].list) != 10 {
+			return 0, nil, fmt.Errorf("model group %q", e.render())
 		}
-		g := rest[1:j]
-		rest = strings.TrimSpace(rest[j+2:])
-		k := strings.Index(g, "(")
-		f := strings.Fields(g[:k])
-		if len(f) != 3 {
-			return 0, nil, fmt.Errorf("model group %q", g)
+		st := e.list[1].list
+		g := mgroup{tok: e.list[0].atom, st: e.list[1].render()}
+		for _, a := range st[7].list {
+			n, _ := strconv.Atoi(a.atom)
+			g.ids = append(g.ids, n)
 		}
-		var ids []int
-		for _, s := range strings.Fields(g[k+1:]) {
-			n, _ := strconv.Atoi(s)
-			ids = append(ids, n)
+		sort.Ints(g.ids)
+		col := func(fn, r string) string {
+			c, err2 := modelAggCanon(fn, r)
+			if err2 != nil {
+				err = err2
+			}
+			return c
 		}
-		out = append(out, mgroup{tok: f[0], sig: f[1] + "|" + f[2] + "|" + fmt.Sprint(ids), ids: ids})
+		g.cols = []string{
+			col("count", st[1].atom), col("sum", st[2].atom), col("min", st[3].atom), col("max", st[4].atom),
+			col("avg", st[5].atom+"/"+st[6].atom), col("union", st[8].render()), col("count", fmt.Sprint(len(st[9].list))),
+		}
+		g.avgP = st[5].atom + "/" + st[6].atom
+		if err != nil {
+			return 0, nil, err
+		}
+		out = append(out, g)
 	}
 	return spills, out, nil
+}
+
+var corrCols = []string{"c", "s", "mn", "mx", "a", "u", "dc"}
+
+const corrAggs = "c:=count(), s:=sum(v), mn:=min(v), mx:=max(v), a:=avg(v), ids:=union(id), u:=union(v), dc:=dcount(s)"
+
+// realGroupOf re-renders a real output row (final or partial form) like a model group.
+func realGroupOf(v zed.Value, keys []keySpec, partial bool) (mgroup, error) {
+	var g mgroup
+	var ks []string
+	for _, k := range keys {
+		s, ok := realKeyCol(v, k.Out)
+		if !ok {
+			return g, fmt.Errorf("no key column %s in %s", k.Out, fmtVals([]zed.Value{v})[0])
+		}
+		ks = append(ks, s)
+	}
+	g.tok = hexTok(strings.Join(ks, "\x00"))
+	ids, err := idsOf(v, "ids")
+	if err != nil {
+		return g, err
+	}
+	g.ids = ids
+	for _, c := range corrCols {
+		s, ok := realCol(v, c)
+		if !ok {
+			return g, fmt.Errorf("no column %s in %s", c, fmtVals([]zed.Value{v})[0])
+		}
+		g.cols = append(g.cols, s)
+	}
+	if partial {
+		// avg's partial is {sum:float64,count:uint64}; dcount's is a bytes sketch
+		av, _ := fieldVal(v, "a")
+		sum, ok1 := fieldVal(av, "sum")
+		cnt, ok2 := fieldVal(av, "count")
+		if !ok1 || !ok2 || zson_type(sum) != "float64" || zson_type(cnt) != "uint64" {
+			return g, fmt.Errorf("avg column of a partials-out row is not in partial form {sum:float64,count:uint64}: %s", g.cols[4])
+		}
+		f := sum.Float() * 8
+		if f != float64(int64(f)) {
+			return g, fmt.Errorf("avg partial sum %v outside the exact class", sum.Float())
+		}
+		g.avgP = fmt.Sprintf("%d/%d", int64(f), cnt.Uint())
+		dv, _ := fieldVal(v, "dc")
+		if zson_type(dv) != "bytes" {
+			return g, fmt.Errorf("dcount column of a partials-out row is not a sketch (bytes): %s", g.cols[6])
+		}
+	}
+	return g, nil
 }
 
 func checkCorr(c *Ctx, x corrCase) {
@@ -1180,17 +1309,13 @@ func checkCorr(c *Ctx, x corrCase) {
 		rows = append(rows, growFromZSON(z))
 	}
 	var keys []keySpec
+	var knames []string
 	for k := 0; k < x.NKeys; k++ {
 		n := fmt.Sprintf("k%d", k+1)
 		keys = append(keys, keySpec{n, n})
+		knames = append(knames, n)
 	}
-	prog := "summarize c:=count(), s:=sum(v), ids:=union(id) by " + func() string {
-		var ks []string
-		for _, k := range keys {
-			ks = append(ks, k.Out)
-		}
-		return strings.Join(ks, ", ")
-	}()
+	prog := "summarize " + corrAggs + " by " + strings.Join(knames, ", ")
 	mode := "direct"
 	if x.Chunks != nil {
 		mode = "partials"
@@ -1205,7 +1330,6 @@ func checkCorr(c *Ctx, x corrCase) {
 	}
 	c.Eval(ek)
 	c.Stat("corr:mode:" + mode)
-	// ranks per key column
 	colRanks := make([]map[string]int, x.NKeys)
 	for k := range keys {
 		var vs []gval
@@ -1214,9 +1338,8 @@ func checkCorr(c *Ctx, x corrCase) {
 		}
 		colRanks[k] = ranksOf(vs)
 	}
-	multiTie := false
 	tieIdents := map[string]map[string]bool{}
-	rowSexp := func(r grow) (string, string) {
+	keyOf := func(r grow) (string, string) {
 		var ks []gval
 		var rk []string
 		for k := range keys {
@@ -1233,16 +1356,22 @@ func checkCorr(c *Ctx, x corrCase) {
 			tieIdents[t] = map[string]bool{}
 		}
 		tieIdents[t][keyIdent(ks)] = true
-		tok := hexTok(keyIdent(ks))
-		return tok, "(" + strings.Join(rk, " ") + ")"
+		return hexTok(keyIdent(ks)), "(" + strings.Join(rk, " ") + ")"
 	}
 	ranksOfTok := map[string]string{}
+	idKey := map[int]string{}
 	var mrows []string
 	for _, r := range rows {
-		tok, rk := rowSexp(r)
+		tok, rk := keyOf(r)
 		ranksOfTok[tok] = rk
-		mrows = append(mrows, fmt.Sprintf("(%s %s 1 %d (%d))", tok, rk, r.get("v").Num8/8, r.ID))
+		idKey[r.ID] = tok
+		av := "-"
+		if v := r.get("v"); !v.Missing {
+			av = avalSexp(v)
+		}
+		mrows = append(mrows, fmt.Sprintf("(%s %s (v %d %s %s))", tok, rk, r.ID, av, hexTok(r.get("s").ident())))
 	}
+	multiTie := false
 	for _, ids := range tieIdents {
 		if len(ids) > 1 {
 			multiTie = true
@@ -1251,8 +1380,19 @@ func checkCorr(c *Ctx, x corrCase) {
 	if multiTie {
 		c.Stat("corr:keys-with-cross-type-ties")
 	}
+	what := func(s string) string {
+		return fmt.Sprintf("`%s` limit=%d sort=%q sizes=%v chunks=%v limit2=%d over %d rows: %s", prog, x.Limit, x.Sort, x.Sizes, x.Chunks, x.Limit2, len(rows), s)
+	}
+	lim := func(l int) int {
+		if l == 0 {
+			return 1000000
+		}
+		return l
+	}
+	// ---- model ----
 	m := c.Model()
 	var mgs []mgroup
+	var mstage1 [][]mgroup
 	var mspills int
 	var err error
 	switch {
@@ -1264,53 +1404,34 @@ func checkCorr(c *Ctx, x corrCase) {
 			if bi < len(x.Sizes) && x.Sizes[bi] > 0 {
 				n = x.Sizes[bi]
 			}
-			e := p + n
-			if e > len(mrows) {
-				e = len(mrows)
-			}
+			e := min(p+n, len(mrows))
 			bs = append(bs, "("+strings.Join(mrows[p:e], " ")+")")
 			p = e
 		}
-		mspills, mgs, err = parseModelGroups(m.Call("(C10 sorted " + strings.Join(bs, " ") + ")"))
+		mspills, mgs, err = parseModelGroups(m.Call(fmt.Sprintf("(C10 sorted %d %s)", lim(x.Limit), strings.Join(bs, " "))))
 	case x.Chunks == nil:
-		lim := x.Limit
-		if lim == 0 {
-			lim = 1000000
-		}
-		mspills, mgs, err = parseModelGroups(m.Call(fmt.Sprintf("(C10 groupby %d %s)", lim, strings.Join(mrows, " "))))
+		mspills, mgs, err = parseModelGroups(m.Call(fmt.Sprintf("(C10 groupby %d %s)", lim(x.Limit), strings.Join(mrows, " "))))
 	default:
-		lim := x.Limit
-		if lim == 0 {
-			lim = 1000000
-		}
 		var mid []string
 		p := 0
 		for _, n := range x.Chunks {
 			if n > 0 {
-				sp, gs, e := parseModelGroups(m.Call(fmt.Sprintf("(C10 groupby %d %s)", lim, strings.Join(mrows[p:p+n], " "))))
+				sp, gs, e := parseModelGroups(m.Call(fmt.Sprintf("(C10 groupby %d %s)", lim(x.Limit), strings.Join(mrows[p:p+n], " "))))
 				if e != nil {
 					err = e
 					break
 				}
 				mspills += sp
+				mstage1 = append(mstage1, gs)
 				for _, g := range gs {
-					f := strings.SplitN(g.sig, "|", 3)
-					var ids []string
-					for _, id := range g.ids {
-						ids = append(ids, fmt.Sprint(id))
-					}
-					mid = append(mid, fmt.Sprintf("(%s %s %s %s (%s))", g.tok, ranksOfTok[g.tok], f[0], f[1], strings.Join(ids, " ")))
+					mid = append(mid, fmt.Sprintf("(%s %s %s)", g.tok, ranksOfTok[g.tok], g.st))
 				}
 			}
 			p += n
 		}
 		if err == nil {
-			lim2 := x.Limit2
-			if lim2 == 0 {
-				lim2 = 1000000
-			}
 			var sp int
-			sp, mgs, err = parseModelGroups(m.Call(fmt.Sprintf("(C10 groupby %d %s)", lim2, strings.Join(mid, " "))))
+			sp, mgs, err = parseModelGroups(m.Call(fmt.Sprintf("(C10 groupby %d %s)", lim(x.Limit2), strings.Join(mid, " "))))
 			mspills += sp
 		}
 	}
@@ -1322,60 +1443,91 @@ func checkCorr(c *Ctx, x corrCase) {
 	if mspills > 0 {
 		c.Stat("corr:model-spilled")
 	}
-	// real
+	// ---- real ----
 	zctx := zed.NewContext()
 	in, perr := parseRows(zctx, x.Rows)
 	if perr != nil {
 		c.Note("corr: %v", perr)
 		return
 	}
-	var out []zed.Value
-	sk := ""
-	if x.Sort != "" {
-		sk = "k1:" + x.Sort
-	}
-	if x.Chunks == nil {
-		out, err = runQuery(qopts{Prog: prog, Zctx: zctx, Inputs: [][]zed.Value{in}, Limit: x.Limit, SortKey: sk, Sizes: x.Sizes})
-	} else {
-		out, _, err = twoStage(prog, zctx, in, x.Chunks, x.Limit, x.Limit2, "", nil)
-	}
-	what := func(s string) string {
-		return fmt.Sprintf("`%s` limit=%d sort=%q sizes=%v chunks=%v limit2=%d over %d rows: %s", prog, x.Limit, x.Sort, x.Sizes, x.Chunks, x.Limit2, len(rows), s)
-	}
-	if err != nil {
+	realErr := func(err error) {
 		kind := "oracle"
 		if isPanic(err) {
 			kind = "panic"
 		}
 		c.Fail(kind, "C10:corr:real-error", what(firstLine(err.Error())), x)
-		return
+	}
+	var out []zed.Value
+	if x.Chunks == nil {
+		sk := ""
+		if x.Sort != "" {
+			sk = "k1:" + x.Sort
+		}
+		out, err = runQuery(qopts{Prog: prog, Zctx: zctx, Inputs: [][]zed.Value{in}, Limit: x.Limit, SortKey: sk, Sizes: x.Sizes})
+		if err != nil {
+			realErr(err)
+			return
+		}
+	} else {
+		var mid []zed.Value
+		p, ci := 0, 0
+		for _, n := range x.Chunks {
+			part := in[p : p+n]
+			p += n
+			if n == 0 {
+				continue
+			}
+			po, err := runQuery(qopts{Prog: prog, Zctx: zctx, Inputs: [][]zed.Value{part}, Limit: x.Limit, PartOut: true})
+			if err != nil {
+				realErr(err)
+				return
+			}
+			// the partial rows of this stage against the model's stage (exact keys are only
+			// determined when no two different keys compare equal)
+			if !multiTie {
+				var rs, ms []string
+				for _, v := range po {
+					g, e := realGroupOf(v, keys, true)
+					if e != nil {
+						c.Fail("correspondence", "C10:corr:partial-form", what(e.Error()), x)
+						return
+					}
+					rs = append(rs, g.tok+" "+g.sig(true))
+				}
+				for _, g := range mstage1[ci] {
+					ms = append(ms, g.tok+" "+g.sig(true))
+				}
+				if !sameSet(rs, ms) {
+					c.Fail("correspondence", "C10:corr:partials-out-rows", what(fmt.Sprintf("chunk %d: model-only %v ; real-only %v", ci, MsDiff(ms, rs, 3), MsDiff(rs, ms, 3))), x)
+					return
+				}
+			}
+			ci++
+			mid = append(mid, po...)
+		}
+		if len(mid) > 0 {
+			out, err = runQuery(qopts{Prog: prog, Zctx: zctx, Inputs: [][]zed.Value{mid}, Limit: x.Limit2, PartIn: true})
+			if err != nil {
+				realErr(err)
+				return
+			}
+		}
 	}
 	var rgs []mgroup
 	for _, v := range out {
-		var ks []string
-		for _, k := range keys {
-			s, _ := realKeyCol(v, k.Out)
-			ks = append(ks, s)
-		}
-		ids, e := idsOf(v, "ids")
+		g, e := realGroupOf(v, keys, false)
 		if e != nil {
-			c.Fail("correspondence", "C10:corr:real-ids", what(e.Error()), x)
+			c.Fail("correspondence", "C10:corr:real-row", what(e.Error()), x)
 			return
 		}
-		cnt, _ := realCol(v, "c")
-		sum, _ := realCol(v, "s")
-		var cn uint64
-		var sn int64
-		fmt.Sscanf(strings.TrimPrefix(cnt, "uint64:"), "%d", &cn)
-		fmt.Sscanf(strings.TrimPrefix(sum, "int64:"), "%d", &sn)
-		rgs = append(rgs, mgroup{tok: hexTok(strings.Join(ks, "\x00")), sig: fmt.Sprintf("%d|%d|%v", cn, sn, ids), ids: ids})
+		rgs = append(rgs, g)
 	}
 	coarse := multiTie && x.Chunks != nil
 	render := func(gs []mgroup) []string {
 		var out []string
 		if !coarse {
 			for _, g := range gs {
-				out = append(out, g.sig)
+				out = append(out, g.sig(false))
 			}
 			return out
 		}
@@ -1406,15 +1558,10 @@ func checkCorr(c *Ctx, x corrCase) {
 	}
 	a, b := render(mgs), render(rgs)
 	if !sameSet(a, b) {
-		c.Fail("correspondence", "C10:corr:"+mode+":groups", what(fmt.Sprintf("model groups (count|sum|ids) %s ; real %s", short(SortedCopy(a), 10), short(SortedCopy(b), 10))), x)
+		c.Fail("correspondence", "C10:corr:"+mode+":groups", what(fmt.Sprintf("model-only groups (c s mn mx a u dc ids) %s ; real-only %s", short(MsDiff(a, b, 4), 4), short(MsDiff(b, a, 4), 4))), x)
 		return
 	}
-	// representative: the real group's key is the key of one of its rows; exact when unmerged
-	idKey := map[int]string{}
-	for _, r := range rows {
-		tok, _ := rowSexp(r)
-		idKey[r.ID] = tok
-	}
+	// representative: the real group's key is the key of one of its rows
 	for _, g := range rgs {
 		ok := false
 		for _, id := range g.ids {
@@ -1446,7 +1593,27 @@ func runCorr(c *Ctx) {
 		if r.Intn(25) == 0 {
 			nrows = 100 + r.Intn(100)
 		}
-		rows := genRows(r, nrows, keyGens, func() string { return pick(r, clsInt) })
+		vgen := func() string {
+			switch r.Intn(12) {
+			case 0:
+				return pick(r, clsStr)
+			case 1, 2:
+				return pick(r, clsFloat)
+			case 3:
+				return fmt.Sprintf("%d(uint64)", r.Intn(9))
+			case 4:
+				return pick(r, clsNulls)
+			case 5:
+				return ""
+			case 6:
+				return pick(r, clsNumType)
+			}
+			return pick(r, clsInt)
+		}
+		if r.Intn(4) == 0 { // homogeneous ints: sums stay integral
+			vgen = func() string { return pick(r, clsInt) }
+		}
+		rows := genRows(r, nrows, keyGens, vgen)
 		var keys []keySpec
 		for k := 0; k < nk; k++ {
 			nm := fmt.Sprintf("k%d", k+1)
@@ -1464,7 +1631,6 @@ func runCorr(c *Ctx) {
 				x.Sort = "desc"
 			}
 			x.Sizes = randSizes(r, len(rows))
-			x.Limit = 0 // the sorted model is the no-spill path
 		default:
 			x.Chunks = chunking(r, len(rows), 1+r.Intn(4))
 			x.Limit2 = pickLimit(r, distinct)
@@ -1490,6 +1656,12 @@ type joinCase struct {
 	LMode string   `json:"lmode"` // "" unsorted | asc | desc   (leg sorted by a sort operator)
 	RMode string   `json:"rmode"`
 	Order []int    `json:"order"` // interleaving of the rows in the single input: index into L (i) or R (len(L)+j)
+	// Direct: the join operator is built directly (join.New) over two separate readers;
+	// LMode/RMode are then "" | fasc | fdesc: that side's reader delivers its rows sorted that
+	// way (comparator convention: nulls last ascending, first descending) and that direction is
+	// declared to join.New — independently per side.  (dag.FileScan.SortKeys is never propagated
+	// by the optimizer, so declared orders cannot reach a join through `file` sources.)
+	Direct bool `json:"direct,omitempty"`
 }
 
 func (x joinCase) prog() string {
@@ -1509,6 +1681,9 @@ func (x joinCase) prog() string {
 		args = ""
 	case "right":
 		args = " ll:=l"
+	}
+	if x.Direct {
+		return fmt.Sprintf("join.New(%s; left reader declared %q, right reader declared %q) on a=b%s", x.Style, x.LMode, x.RMode, args)
 	}
 	return fmt.Sprintf("fork (=> %s => %s) | %s join on a=b%s", leg("l", "a", x.LMode), leg("r", "b", x.RMode), x.Style, args)
 }
@@ -1547,6 +1722,39 @@ func checkJoin(c *Ctx, x joinCase) {
 		}
 	}
 	prog := x.prog()
+	var all []gval
+	for _, a := range l {
+		all = append(all, a.Key)
+	}
+	for _, b := range r {
+		all = append(all, b.Key)
+	}
+	rk := ranksOf(all)
+	if x.Direct {
+		// each side from its own reader, in the order given, sorted as declared
+		declSort := func(side []jrow, mode string) []jrow {
+			out := append([]jrow(nil), side...)
+			if mode == "" {
+				return out
+			}
+			sort.SliceStable(out, func(i, j int) bool {
+				a, b := out[i].Key, out[j].Key
+				an, bn := a.Null || a.Missing, b.Null || b.Missing
+				if mode == "fdesc" {
+					if an || bn {
+						return an && !bn // nulls first
+					}
+					return rk[a.tie()] > rk[b.tie()]
+				}
+				if an || bn {
+					return !an && bn // nulls last
+				}
+				return rk[a.tie()] < rk[b.tie()]
+			})
+			return out
+		}
+		lin, rin = declSort(l, x.LMode), declSort(r, x.RMode)
+	}
 	// naive
 	var want []string
 	if x.Style == "right" {
@@ -1579,7 +1787,33 @@ func checkJoin(c *Ctx, x joinCase) {
 	what := func(s string) string {
 		return fmt.Sprintf("`%s` over left keys %s right keys %s: %s", prog, short(x.L, 14), short(x.R, 14), s)
 	}
-	out, err := runQuery(qopts{Prog: prog, Zctx: zctx, Inputs: [][]zed.Value{in}})
+	var out []zed.Value
+	if x.Direct {
+		var lt, rt []string
+		for i := range lin {
+			for idx := range l {
+				if l[idx].ID == lin[i].ID {
+					lt = append(lt, rowText(idx))
+				}
+			}
+		}
+		for i := range rin {
+			for j := range r {
+				if r[j].ID == rin[i].ID {
+					rt = append(rt, rowText(len(l)+j))
+				}
+			}
+		}
+		lv, e1 := parseRows(zctx, lt)
+		rv, e2 := parseRows(zctx, rt)
+		if e1 != nil || e2 != nil {
+			c.Note("join: %v %v", e1, e2)
+			return
+		}
+		out, err = runJoinDirect(zctx, x.Style, lv, rv, x.LMode, x.RMode)
+	} else {
+		out, err = runQuery(qopts{Prog: prog, Zctx: zctx, Inputs: [][]zed.Value{in}})
+	}
 	if err != nil {
 		kind := "oracle"
 		if isPanic(err) {
@@ -1606,53 +1840,24 @@ func checkJoin(c *Ctx, x joinCase) {
 			got = append(got, num(v, "l")+" "+num(v, "rr"))
 		}
 	}
-	// model: arrival order after the sort operators, ranks under the join's comparator
-	var all []gval
-	for _, a := range l {
-		all = append(all, a.Key)
-	}
-	for _, b := range r {
-		all = append(all, b.Key)
-	}
-	rk := ranksOf(all)
-	desc := false // join.New: o from the left declared direction, else from the right
-	switch {
-	case x.LMode != "":
-		desc = x.LMode == "desc"
-	case x.RMode != "":
-		desc = x.RMode == "desc"
-	}
+	// model: the legs as the sources deliver them; the model plans the join (right-style swap,
+	// direction, inserted sorts) and runs it
+	desc := false // join.New: o from ITS left declared direction, else from its right
+	first, second := x.LMode, x.RMode
 	if x.Style == "right" { // sides are swapped before join.New
-		switch {
-		case x.RMode != "":
-			desc = x.RMode == "desc"
-		case x.LMode != "":
-			desc = x.LMode == "desc"
-		}
+		first, second = second, first
 	}
-	arrive := func(side []jrow, mode string) []jrow {
-		out := append([]jrow(nil), side...)
-		m := mode
-		if m == "" { // inserted sort uses the join's direction
-			m = "asc"
-			if desc {
-				m = "desc"
-			}
+	switch {
+	case first != "":
+		desc = strings.HasSuffix(first, "desc")
+	case second != "":
+		desc = strings.HasSuffix(second, "desc")
+	}
+	legName := func(m string) string {
+		if m == "" {
+			return "-"
 		}
-		// the sort operator: ascending = tie rank ascending with nulls last; descending =
-		// rank descending but nulls (and missing) still last
-		sort.SliceStable(out, func(i, j int) bool {
-			a, b := out[i].Key, out[j].Key
-			an, bn := a.Null || a.Missing, b.Null || b.Missing
-			if an || bn {
-				return !an && bn
-			}
-			if m == "desc" {
-				return rk[a.tie()] > rk[b.tie()]
-			}
-			return rk[a.tie()] < rk[b.tie()]
-		})
-		return out
+		return m
 	}
 	side := func(rows []jrow) string {
 		var s []string
@@ -1660,21 +1865,15 @@ func checkJoin(c *Ctx, x joinCase) {
 			if a.Key.Missing {
 				continue
 			}
-			rank := rk[a.Key.tie()]
-			if desc {
-				rank = -rank
+			k := "null"
+			if !a.Key.Null {
+				k = fmt.Sprint(rk[a.Key.tie()])
 			}
-			s = append(s, fmt.Sprintf("(%d %d)", rank, a.ID))
+			s = append(s, fmt.Sprintf("(%s %d)", k, a.ID))
 		}
 		return "(" + strings.Join(s, " ") + ")"
 	}
-	ml, mr := arrive(lin, x.LMode), arrive(rin, x.RMode)
-	style := x.Style
-	if style == "right" {
-		ml, mr = mr, ml
-		style = "left"
-	}
-	ans := c.Model().Call(fmt.Sprintf("(C10 joinraw %s %s %s)", style, side(ml), side(mr)))
+	ans := c.Model().Call(fmt.Sprintf("(C10 joinfull %s %s %s %s %s)", x.Style, legName(x.LMode), legName(x.RMode), side(lin), side(rin)))
 	c.Res.ModelCases++
 	var model []string
 	for _, p := range strings.Split(strings.TrimSuffix(strings.TrimPrefix(ans, "("), ")"), ") (") {
@@ -1685,9 +1884,6 @@ func checkJoin(c *Ctx, x joinCase) {
 		if len(f) != 2 {
 			c.Fail("correspondence", "C10:join:model-answer", "model answered "+ans, x)
 			return
-		}
-		if x.Style == "right" {
-			f[0], f[1] = f[1], f[0]
 		}
 		model = append(model, f[0]+" "+f[1])
 	}
@@ -1732,8 +1928,10 @@ func runJoin(c *Ctx) {
 	modes := []string{"", "", "asc", "desc"}
 	for i := 0; i < n; i++ {
 		x := joinCase{Kind: "join", Style: styles[r.Intn(4)], LMode: modes[r.Intn(4)], RMode: modes[r.Intn(4)]}
-		if x.LMode != "" && x.RMode != "" && x.LMode != x.RMode {
-			x.RMode = x.LMode // opposite declared directions: the optimizer's business, not the operator's
+		if r.Intn(3) == 0 && x.Style != "right" { // two separate readers, independently declared orders
+			x.Direct = true
+			fm := []string{"", "fasc", "fdesc"}
+			x.LMode, x.RMode = fm[r.Intn(3)], fm[r.Intn(3)]
 		}
 		_, kg := keyClass(r)
 		for {
